@@ -164,6 +164,12 @@ func c09Family(thorough bool) []*c09Case {
 			}
 		}
 	}
+	// unnamed types (from `@a | @b` shortcuts and inline `or` rule-sets) that fail inside a registered type
+	for _, tt := range []string{"{\n\t\"k\": @a | @gone\n}", "{\n\t\"k\": 1 // {or: [{type: \"@a\"}, {type: \"@gone\"}]}\n}", "[\n\t@gone | @a\n]", "{\n\t\"k\": 5 // {or: [{type: \"integer\", min: 9}, {type: \"string\"}]}\n}"} {
+		for _, r := range []string{"{\n\t\"x\": @t\n}", `@t`, "[\n\t@t,\n\t@a\n]"} {
+			add("project", &project{Root: r, Types: map[string]string{"@t": tt, "@a": `1`}}, "")
+		}
+	}
 	// string formats, banned-rule conflicts, enum rules with dotted strings
 	for _, r := range []string{
 		`"a@b.cc" // {type: "email", minLength: 1, regex: "a"}`, `"a@b.cc" // {type: "email", regex: "a", minLength: 1}`,
@@ -250,7 +256,7 @@ func c09Explore(w *core.W, c *c09Case, bound int, perOccurrence bool) {
 		w.S.Transitions += int64(len(ch.Choices))
 		if first {
 			base, first = o, false
-			for _, s := range []string{o.Msg, o.AST, o.Example, o.OpenAPI, o.Used, o.BuildErr} {
+			for _, s := range []string{o.Msg, o.Pos, o.AST, o.Example, o.OpenAPI, o.Used, o.BuildErr} {
 				if m := c09Addr.FindString(s); m != "" {
 					c09Fail(w, c, "no-address-in-observables", fmt.Sprintf("observable contains %q: %s", m, trunc(s, 120)), nil, nil)
 					break
